@@ -130,7 +130,8 @@ namespace {
             uint32_t prev = 0;
             if ( !s.owner.compare_exchange_strong( prev, who, std::memory_order_relaxed, std::memory_order_relaxed )) {
                 violation( "C24", "object-handed-out-twice:" + variant,
-                           "allocate() returned to holder " + std::to_string( who ) + " an object that holder " + std::to_string( prev ) + " has allocated (or received) and not deallocated (" + where + ")",
+                           "allocate() returned to holder " + std::to_string( who ) + " an object that " + ( prev == WHO_TRANSIT ? std::string( "is in the mailbox between two holders" ) : "holder " + std::to_string( prev ) + " has allocated (or received)" )
+                           + " and that has not been deallocated (" + where + ")",
                            "{" + ctx() + ",\"new_holder\":" + std::to_string( who ) + ",\"current_holder\":" + std::to_string( prev ) + ",\"from_preallocated_block\":" + ( pool->in_pool( o ) ? "true" : "false" )
                            + ",\"where\":" + jstr( where ) + "}" );
                 return nullptr;     // it belongs to the other holder
@@ -258,13 +259,21 @@ namespace {
         std::vector<Obj*> held;
         Rng rng( 4242 );
         size_t limit = K == BOUNDED ? r.cap : r.cap + 3;
+        bool broken = false;
         for ( unsigned i = 0; i < 600; ++i ) {
             uint64_t s0 = cdsv_rt_my_steps();
             if ( held.size() < limit && ( held.empty() || rng.chance( 1, 2 ))) {
                 bool threw = false;
                 Obj* p = r.do_alloc( 1, "calibration", threw );
                 uint64_t d = cdsv_rt_my_steps() - s0; if ( d > c.max_alloc ) c.max_alloc = d;
-                if ( !p ) harness_failure( "calibration: allocate failed below capacity (single thread): " + name );
+                if ( !p ) {
+                    // single thread, fewer than capacity objects out: a library defect, not a harness problem
+                    if ( threw )
+                        violation( "C24", "bad_alloc-below-capacity:" + name, "bounded pool threw std::bad_alloc in a single-threaded alloc/dealloc sequence with " + std::to_string( held.size())
+                                   + " of " + std::to_string( r.cap ) + " objects allocated", "{" + r.ctx() + ",\"phase\":\"single-thread-calibration\",\"allocated\":" + std::to_string( held.size()) + "}" );
+                    broken = true;
+                    break;
+                }
                 held.push_back( p );
             }
             else {
@@ -275,14 +284,29 @@ namespace {
                 uint64_t d = cdsv_rt_my_steps() - s0; if ( d > c.max_dealloc ) c.max_dealloc = d;
             }
         }
-        if ( K == BOUNDED ) {
+        if ( K == BOUNDED && !broken ) {
             // a failing allocate (pool empty) is a single-threaded path too
-            while ( held.size() < r.cap ) { bool threw; Obj* p = r.do_alloc( 1, "calibration", threw ); if ( !p ) harness_failure( "calibration: bounded pool short of objects" ); held.push_back( p ); }
-            uint64_t s0 = cdsv_rt_my_steps();
-            bool threw = false;
-            Obj* p = r.do_alloc( 1, "calibration", threw );
-            if ( p || !threw ) harness_failure( "calibration: bounded pool did not throw std::bad_alloc when empty" );
-            uint64_t d = cdsv_rt_my_steps() - s0; if ( d > c.max_alloc ) c.max_alloc = d;
+            while ( held.size() < r.cap ) {
+                bool threw; Obj* p = r.do_alloc( 1, "calibration", threw );
+                if ( !p ) {
+                    if ( threw )
+                        violation( "C24", "bad_alloc-below-capacity:" + name, "bounded pool threw std::bad_alloc in a single-threaded sequence with " + std::to_string( held.size()) + " of "
+                                   + std::to_string( r.cap ) + " objects allocated", "{" + r.ctx() + ",\"phase\":\"single-thread-calibration\",\"allocated\":" + std::to_string( held.size()) + "}" );
+                    broken = true;
+                    break;
+                }
+                held.push_back( p );
+            }
+            if ( !broken ) {
+                uint64_t s0 = cdsv_rt_my_steps();
+                bool threw = false;
+                Obj* p = r.do_alloc( 1, "calibration", threw );      // an object handed out twice is reported by do_alloc
+                if ( p ) {
+                    violation( "C24", "more-objects-than-capacity:" + name, "bounded pool handed out more objects than its capacity (single thread)", "{" + r.ctx() + ",\"phase\":\"single-thread-calibration\"}" );
+                    held.push_back( p );
+                }
+                uint64_t d = cdsv_rt_my_steps() - s0; if ( d > c.max_alloc ) c.max_alloc = d;
+            }
         }
         for ( Obj* p : held ) { bool cross; r.do_dealloc( p, 1, cross ); }
         cdsv_rt_thread_end();
@@ -429,7 +453,13 @@ namespace {
         }
     }
 
+#if defined(__SANITIZE_THREAD__)
+    const double BUDGET_QUICK_S = 14.0;
+#else
+    const double BUDGET_QUICK_S = 18.0;
+#endif
     double g_deadline_step = 0, g_t0 = 0;
+    HangGuard* g_guard = nullptr;
     unsigned g_variant_no = 0;
 
     template <class P, class Api, Kind K>
@@ -445,11 +475,10 @@ namespace {
         double deadline = g_t0 + g_deadline_step * ( my_no + 1 );
         uint64_t i = 0;
         for ( ; i < runs; ++i ) {
-            if ( i % 40 == 0 ) {
-                if ( i && wall_now() > deadline ) break;
-                crew.reset(); crew.reset( new Crew( 4 ));
-            }
+            if ( i && i % 10 == 0 && wall_now() > deadline ) break;     // wall-clock budget of the tier (only cuts the number of runs)
+            if ( i % 40 == 0 ) { crew.reset(); crew.reset( new Crew( 4 )); }   // fresh OS threads (and thread ids) now and then
             one_run<P, Api, K>( *crew, name, cal, i, tot, ps );
+            g_guard->tick();
         }
         if ( i < runs ) ps.add_extra( "runs_not_made_because_of_the_wall_clock_budget", runs - i );
         ps.evaluations.fetch_add( tot.runs );
@@ -488,8 +517,10 @@ int main( int argc, char** argv )
 #if defined(__SANITIZE_ADDRESS__)
     runs = args().n( 300, 6000 );
 #endif
+    HangGuard guard( "pools", 12.0 );
+    g_guard = &guard;
     g_t0 = wall_now();
-    g_deadline_step = ( args().thorough ? 400.0 : 20.0 ) * args().scale / 11.0;
+    g_deadline_step = ( args().thorough ? 360.0 : BUDGET_QUICK_S ) * ( args().scale > 1 ? args().scale : 1.0 ) / 11.0;   // --scale < 1 cuts the planned runs, not the budget
     typedef cds::memory::vyukov_queue_pool<Obj> vp;
     typedef cds::memory::lazy_vyukov_queue_pool<Obj> lp;
     typedef cds::memory::bounded_vyukov_queue_pool<Obj> bp;
@@ -509,5 +540,6 @@ int main( int argc, char** argv )
     run_variant< VP, RebindApi<VP>, VYUKOV >( "pool_allocator<vyukov_queue_pool>::rebind<smaller>", runs );
     run_variant< LP, RebindApi<LP>, LAZY >( "pool_allocator<lazy_vyukov_queue_pool>::rebind<smaller>", runs );
     run_variant< BP, RebindApi<BP>, BOUNDED >( "pool_allocator<bounded_vyukov_queue_pool>::rebind<smaller>", runs );
+    g_guard = nullptr;
     return finish( "pools" );
 }
